@@ -39,7 +39,9 @@ fast_check() { # name -> prints "ok" or the first error line
   local out
   out=$(VERIF_REPO=$wt VERIF_SQLGEN_ROOT=/tmp/t2fast python3 "$verif/tools/sqlgen/sqlgen.py" "$verif/tools/sqlgen/$s" 2>&1) || { echo "translator: $(echo "$out" | grep -m1 ERROR)"; return; }
   local gen=$(ls /tmp/t2fast/coq/$g/gen/)
-  for f in ${gen} GenEquiv.v Props_$p.v; do
+  local extra=""
+  if [ -f /tmp/t2fast/coq/$g/BatchSql.v ]; then extra="BatchSql.v"; fi   # depends on the generated file (work package W)
+  for f in ${gen} GenEquiv.v $extra Props_$p.v; do
     out=$(cd /tmp/t2fast/coq/$g && timeout 600 coqc -Q ../Base HostdBase -Q . Hostd$g $f 2>&1) || { echo "coqc $f: $(echo "$out" | grep -m1 -A3 '^Error' | tr '\n' ' ' | cut -c1-200)"; return; }
   done
   echo ok
